@@ -118,6 +118,16 @@ def paren_single(rng):
     return '(' + gen.ser(mid) + ')' + gen.ser(tail), toks
 
 
+def closer_single(rng):
+    """A single whose text begins with an unescaped, literal `)`: behind either marker it is an ordinary exclusion body (only an
+    opening `(` right behind `!` makes an extended group of it)."""
+    tail = tuple(gen.rand_tokens(rng, maxtok=2, depth=0, alpha='ab.', kinds=''))
+    toks = (('lit', ')'),) + tail
+    if gen.ambiguous_adjacency(toks) or not gen.in_fragment(toks):
+        return None
+    return ')' + gen.ser(tail), toks
+
+
 def rand_composite(rng, path_mode, max_inc=4, max_exc=3):
     c = Composite()
     c.path_mode = path_mode
@@ -178,6 +188,10 @@ def rand_composite(rng, path_mode, max_inc=4, max_exc=3):
         for text, pairs, need in exc_groups:
             if len(pairs) == 1 and not need and (minus or not ext) and rng.random() < 0.25:
                 ps = paren_single(rng)
+                if ps:
+                    text, pairs = ps[0], [ps]
+            elif len(pairs) == 1 and not need and rng.random() < 0.12:
+                ps = closer_single(rng)
                 if ps:
                     text, pairs = ps[0], [ps]
             c.flags |= need
